@@ -35,6 +35,7 @@ import (
 
 	corev1 "k8s.io/api/core/v1"
 	apierrors "k8s.io/apimachinery/pkg/api/errors"
+	metav1 "k8s.io/apimachinery/pkg/apis/meta/v1"
 	"k8s.io/apimachinery/pkg/types"
 	"sigs.k8s.io/controller-runtime/pkg/client"
 	"sigs.k8s.io/controller-runtime/pkg/client/interceptor"
@@ -278,6 +279,15 @@ func build(sc scen) (*common.Scenario, []string) {
 		}
 	}
 	sort.Strings(names)
+	if rng.Intn(5) == 0 {
+		// a Node that is not Karpenter's and has no provider id (yet): joined but not stamped by the cloud controller manager,
+		// or bare metal. It is nobody's registration target.
+		e.Apply(&corev1.Node{ObjectMeta: metav1.ObjectMeta{Name: "foreign-node", Labels: map[string]string{corev1.LabelHostname: "foreign-node"}},
+			Status: corev1.NodeStatus{Phase: corev1.NodeRunning, Conditions: []corev1.NodeCondition{{Type: corev1.NodeReady, Status: corev1.ConditionTrue}},
+				Capacity:    corev1.ResourceList{corev1.ResourceCPU: gen.Q("4"), corev1.ResourceMemory: gen.Q("8Gi"), corev1.ResourcePods: gen.Q("10")},
+				Allocatable: corev1.ResourceList{corev1.ResourceCPU: gen.Q("4"), corev1.ResourceMemory: gen.Q("8Gi"), corev1.ResourcePods: gen.Q("10")}}})
+		s.Desc["foreignNodeWithoutProviderID"] = true
+	}
 	return s, names
 }
 
